@@ -769,6 +769,12 @@ def _grid(tier):
             yield call('SWITCH', L(e), L(k), L('hit'), L('default'))
             yield call('SWITCH', L(e), L(k), L('hit'))
             yield call('SWITCH', L(e), L('zz'), L('no'), L(k), L('hit2'), L('default'))
+            # error values in positions that are not selected (default, a later result) do not leak; a selected one is returned
+            for err in (Err('#N/A'), Err('#DIV/0!')):
+                yield call('SWITCH', L(e), L(k), L('hit'), L(err))
+                yield call('SWITCH', L(e), L(k), L('hit'), L('zz'), L(err), L('default'))
+                yield call('SWITCH', L(e), L(k), L(err), L('default'))
+                yield call('SWITCH', L(e), L(k), L('hit'), Rf([[err]]))
     # -- aggregations: one unusual item next to plain numbers, typed vs referenced vs array constant
     items = SCALARS + TRAPS
     if q:
